@@ -32,6 +32,7 @@ type VC struct {
 
 	obls []*Obl
 	qdefs []qdef
+	sliceCache []sliceItem
 
 	assumptions map[string]bool // abstraction notes collected while generating
 	bytes       int
@@ -46,6 +47,7 @@ type Obl struct {
 	Pos     string
 	Text    string // source text of the clause
 	NoAxioms bool
+	NoQuant  bool
 	MustSat bool   // vacuity probe: reach must be satisfiable (Goal ignored)
 	Fn      string
 	Extra   []string // extra assertions local to this obligation
@@ -452,11 +454,16 @@ func (vc *VC) ufun(name string, args []string, ret string) string {
 }
 
 // closing assertions emitted once at script build time
-func (vc *VC) closing() string {
+func (vc *VC) closing(rel map[string]bool) string {
 	var b strings.Builder
 	if len(vc.strLitList) > 0 {
 		names := []string{"str_empty"}
-		lits := append([]string(nil), vc.strLitList...)
+		var lits []string
+		for _, l := range vc.strLitList {
+			if rel == nil || rel[vc.strLits[l]] {
+				lits = append(lits, l)
+			}
+		}
 		sort.Strings(lits)
 		for _, l := range lits {
 			names = append(names, vc.strLits[l])
@@ -467,7 +474,7 @@ func (vc *VC) closing() string {
 		// concat folding on literal pairs whose concatenation is itself a literal in scope
 		for _, a := range lits {
 			for _, c := range lits {
-				if r, ok := vc.strLits[a+c]; ok {
+				if r, ok := vc.strLits[a+c]; ok && (rel == nil || rel[r]) {
 					fmt.Fprintf(&b, "(assert (= (str_cat %s %s) %s))\n", vc.strLits[a], vc.strLits[c], r)
 				}
 			}
@@ -555,19 +562,139 @@ const preludeAxioms = `(assert (forall ((s Str)) (! (>= (strlen s) 0) :pattern (
 (assert (forall ((e Iface)) (! (errors_is e e) :pattern ((errors_is e e)))))
 `
 
+// ---- cone-of-influence slicing ----
+// Every obligation only needs the declarations and assertions its own symbols depend on. Lines
+// are classified as: structural (sorts, datatypes, functions: always kept), constant declarations
+// (kept when the constant is relevant), definitions "(assert (= c e))" directly following the
+// declaration of c (kept when c is relevant; the symbols of e become relevant), and other
+// assertions (kept when they mention a relevant constant; all their symbols become relevant).
+// Dropping assertions can only make an obligation harder to prove, never easier.
+type sliceItem struct {
+	text string
+	kind int    // 0 structural, 1 const decl, 2 definition, 3 other assert
+	sym  string // declared / defined constant
+	syms []string
+	q    bool
+}
+
+var tokRE = regexp.MustCompile(`[A-Za-z_][A-Za-z0-9_!.]*`)
+
+func (vc *VC) sliceIndex() []sliceItem {
+	if vc.sliceCache != nil && len(vc.sliceCache) == len(vc.decls) {
+		return vc.sliceCache
+	}
+	items := make([]sliceItem, len(vc.decls))
+	consts := map[string]bool{}
+	prevDecl := ""
+	for i, d := range vc.decls {
+		it := sliceItem{text: d}
+		t := d
+		if strings.HasPrefix(t, qMark) {
+			it.q = true
+			t = t[len(qMark):]
+		}
+		switch {
+		case strings.HasPrefix(t, "(declare-const "):
+			f := strings.Fields(t[len("(declare-const "):])
+			it.kind, it.sym = 1, f[0]
+			consts[it.sym] = true
+			prevDecl = it.sym
+		case strings.HasPrefix(t, "(assert "):
+			it.kind = 3
+			if prevDecl != "" && strings.HasPrefix(t, "(assert (= "+prevDecl+" ") {
+				it.kind, it.sym = 2, prevDecl
+			}
+			for _, m := range tokRE.FindAllString(t, -1) {
+				if consts[m] && m != it.sym {
+					it.syms = append(it.syms, m)
+				}
+			}
+			prevDecl = ""
+		default:
+			prevDecl = ""
+		}
+		items[i] = it
+	}
+	vc.sliceCache = items
+	return items
+}
+
+func (vc *VC) sliceFor(o *Obl) ([]bool, map[string]bool) {
+	items := vc.sliceIndex()
+	keep := make([]bool, len(items))
+	rel := map[string]bool{}
+	var work []string
+	add := func(s string) {
+		if !rel[s] {
+			rel[s] = true
+			work = append(work, s)
+		}
+	}
+	for _, m := range tokRE.FindAllString(o.Reach+" "+o.Goal+" "+strings.Join(o.Extra, " "), -1) {
+		add(m)
+	}
+	defOf := map[string]int{}
+	declOf := map[string]int{}
+	mention := map[string][]int{}
+	for i, it := range items {
+		switch it.kind {
+		case 0:
+			keep[i] = true
+		case 1:
+			declOf[it.sym] = i
+		case 2:
+			defOf[it.sym] = i
+		case 3:
+			if len(it.syms) == 0 {
+				keep[i] = true // facts about functions and literals only (axioms, pow2, array ids)
+			}
+			for _, s := range it.syms {
+				mention[s] = append(mention[s], i)
+			}
+		}
+	}
+	for len(work) > 0 {
+		s := work[len(work)-1]
+		work = work[:len(work)-1]
+		if i, ok := declOf[s]; ok {
+			keep[i] = true
+		}
+		if i, ok := defOf[s]; ok && !keep[i] {
+			keep[i] = true
+			for _, t := range items[i].syms {
+				add(t)
+			}
+		}
+		for _, i := range mention[s] {
+			if !keep[i] {
+				keep[i] = true
+				for _, t := range items[i].syms {
+					add(t)
+				}
+			}
+		}
+	}
+	return keep, rel
+}
+
 // script builds the SMT-LIB text for one obligation.
 func (vc *VC) script(o *Obl) string {
 	var b strings.Builder
 	b.WriteString(prelude)
 	if !o.MustSat && !o.NoAxioms {
 		b.WriteString(preludeAxioms)
-	} else if !o.MustSat {
+	} else if !o.MustSat && !o.NoQuant {
 		b.WriteString("(assert (forall ((s Str)) (! (>= (strlen s) 0) :pattern ((strlen s)))))\n")
 	}
-	for _, d := range vc.decls {
+	keep, rel := vc.sliceFor(o)
+	for i, d := range vc.decls {
+		if !keep[i] {
+			continue
+		}
 		if strings.HasPrefix(d, qMark) {
-			// definition of a quantified assumption: left out of vacuity probes (the atom stays free)
-			if o.MustSat {
+			// definition of a quantified assumption: left out of vacuity probes and of the
+			// quantifier-free variant (the atom stays free: fewer assumptions)
+			if o.MustSat || o.NoQuant {
 				continue
 			}
 			d = d[len(qMark):]
@@ -575,7 +702,7 @@ func (vc *VC) script(o *Obl) string {
 		b.WriteString(d)
 		b.WriteByte('\n')
 	}
-	b.WriteString(vc.closing())
+	b.WriteString(vc.closing(rel))
 	for _, e := range o.Extra {
 		b.WriteString("(assert " + e + ")\n")
 	}
